@@ -227,4 +227,17 @@ def poolInventory : List (String × String × String × String × Nat × Nat × 
       "!(closed)&!(err!=nil)&!isLZW", "flag:closed"),
     ("pdf.zlibWriterPool", "encodeFlateLZW", "get", "-", 1, 0, "!(isLZW)", "-") ]
 
+/-- the reviewed inventory of `append` calls whose first argument is a struct field or a
+package-level slice in the anchored files (file, function, first argument, field/global, and
+whether the result is assigned back to that very field — `back` — or used elsewhere — `temp`).
+Compared on every run with the inventory re-extracted from the Go sources
+(harness/conc_a_append.go).  All of them grow the owner's own slice while the owner is being built
+(`NewReader`) or belong to the single-goroutine writing side (`ResourceManager`, `EmbedHelper`). -/
+def appendInventory : List (String × String × String × String × String) :=
+  [ ("reader.go", "NewReader", "r.Errors", "field", "back"),
+    ("reader.go", "NewReader", "r.Errors", "field", "back"),
+    ("resource.go", "(*EmbedHelper).Defer", "e.rm.deferred", "field", "back"),
+    ("resource.go", "(*EmbedHelper).EmbedAt", "e.refs", "field", "back"),
+    ("resource.go", "(*ResourceManager).StoreDeferred", "rm.deferred", "field", "back") ]
+
 end PdfVerif.CONC
